@@ -211,6 +211,16 @@ def run(ctx):
     cx, cy, cz = C.centroid(fl)
     structures.append(("frag-3SGB-E0+40 across x=-100", C.join(C.translate(fl, -100000 - cx, 0, 0))))
     structures.append(("frag-3SGB-E0+40 across y=+1000 z=-100", C.join(C.translate(fl, 0, 1000000 - cy, -100000 - cz))))
+    # hydrogens on elements without a tabulated X-H length (methaneselenol, methylphosphine, methylborane next to a fragment)
+    def small(resn, num, atoms_, at):
+        return [pdbio.atom_line("HETATM", 9100 + 10 * num + k, nm, " ", resn, "L", num, " ", at[0] + x, at[1] + y, at[2] + z, elem=el)
+                for k, (nm, el, x, y, z) in enumerate(atoms_)]
+    f5 = C.chain_lines("1HPX", "A", 20, 8)
+    ox, oy, oz = C.centroid(f5)
+    odd = small("MSL", 1, [("C1", "C", 0, 0, 0), ("SE1", "SE", 1950, 0, 0)], (ox + 15000, oy, oz)) + \
+        small("MPH", 2, [("C1", "C", 0, 0, 0), ("P1", "P", 0, 1850, 0)], (ox, oy + 15000, oz)) + \
+        small("MBO", 3, [("C1", "C", 0, 0, 0), ("B1", "B", 0, 0, 1560)], (ox, oy, oz + 15000))
+    structures.append(("frag-1HPX-A20+8 + MeSeH + MePH2 + MeBH2", C.join(f5 + [C.TER] + odd)))
     # insertion-coded residues of different types on one number (48, 48A-D) in a structure that has a second conformation
     # (alternate locations of a side chain elsewhere): both conformations hold all of them, fully protonated
     ins = C.chain_lines("3SGB", "E", 19, 16)
@@ -273,7 +283,7 @@ def run(ctx):
             exp = expected.get(key, -1)
             if not hs and exp < 0:
                 continue
-            m = measure(a, lengths.get(a.element, 1000))
+            m = measure(a, lengths.get(a.element, -1))
             m["h"] = [list(observe.key_of(h)) for h in hs]
             m["heavy"] = [len([b for b in h.bonded_atoms if b.element != "H"]) for h in hs]
             m["exp"] = exp
